@@ -36,7 +36,10 @@ import (
 	"github.com/ProtonMail/go-crypto/openpgp"
 	"github.com/ProtonMail/go-crypto/openpgp/armor"
 	"github.com/ProtonMail/go-crypto/openpgp/packet"
+	"github.com/sassoftware/relic/v8/lib/certloader"
 	"github.com/sassoftware/relic/v8/lib/pgptools"
+	"github.com/sassoftware/relic/v8/signers"
+	pgpsigner "github.com/sassoftware/relic/v8/signers/pgp"
 
 	"verifharness/hx"
 	"verifharness/sg"
@@ -123,7 +126,7 @@ func errClass(err error) string {
 func entity() *openpgp.Entity { return sg.Cert("rsa").PgpKey }
 
 // hung calls leave their goroutines behind: the op is reported as "diverge"
-const deadline = 700 * time.Millisecond
+const deadline = 8 * time.Second // generous: a loaded machine must not turn a slow call into a reported hang
 
 func withDeadline(f func() error) (err error, hung bool) {
 	done := make(chan error, 1)
@@ -374,6 +377,84 @@ func InputLen(f []string) int {
 	return n
 }
 
+// recHash records what is written to it (the stream a hash would be fed)
+type recHash struct{ buf []byte }
+
+func (r *recHash) Write(p []byte) (int, error) { r.buf = append(r.buf, p...); return len(p), nil }
+func (r *recHash) Sum(b []byte) []byte         { return b }
+func (r *recHash) Reset()                      { r.buf = nil }
+func (r *recHash) Size() int                   { return 0 }
+func (r *recHash) BlockSize() int              { return 64 }
+
+// fragReader delivers its content in reads of at most n bytes (n <= 0: whatever the caller asks for)
+type fragReader struct {
+	b []byte
+	n int
+}
+
+func (r *fragReader) Read(p []byte) (int, error) {
+	if len(r.b) == 0 {
+		return 0, io.EOF
+	}
+	k := len(p)
+	if r.n > 0 && k > r.n {
+		k = r.n
+	}
+	if k > len(r.b) {
+		k = len(r.b)
+	}
+	copy(p, r.b[:k])
+	r.b = r.b[k:]
+	return k, nil
+}
+
+// doDetached: relic's PGP signer (detached form, --textmode / --armor as given) on a fragmented stream, then
+// pgptools.VerifyDetached with the document delivered in other fragments
+func doDetached(mode string, body []byte, h crypto.Hash, withArmor bool, frag int) string {
+	ent := entity()
+	fv := &signers.FlagValues{Defs: pgpsigner.PgpSigner.Flags(), Values: map[string]string{}}
+	if mode == "text" {
+		fv.Values["textmode"] = "true"
+	}
+	if withArmor {
+		fv.Values["armor"] = "true"
+	}
+	cert := &certloader.Certificate{PgpKey: ent}
+	sig, err := pgpsigner.PgpSigner.Sign(&fragReader{b: append([]byte{}, body...), n: frag}, cert, signers.SignOpts{Hash: h, Time: time.Now(), Flags: fv})
+	if err != nil {
+		return "err " + errClass(err)
+	}
+	raw := sig
+	if withArmor {
+		block, err := armor.Decode(bytes.NewReader(sig))
+		if err != nil || block.Type != "PGP SIGNATURE" {
+			return "err armor"
+		}
+		if raw, err = io.ReadAll(block.Body); err != nil {
+			return "err armor-body"
+		}
+	}
+	pk, err := packet.Read(bytes.NewReader(raw))
+	sp, ok := pk.(*packet.Signature)
+	if err != nil || !ok {
+		return "err sigpacket"
+	}
+	v := "ok"
+	if _, err := pgptools.VerifyDetached(bytes.NewReader(raw), &fragReader{b: append([]byte{}, body...), n: 7 - frag%5}, openpgp.EntityList{ent}); err != nil {
+		v = errClass(err)
+	}
+	// a changed document must not verify
+	t := "rejected"
+	if len(body) > 0 {
+		mut := append([]byte{}, body...)
+		mut[len(mut)/2] ^= 0x20
+		if _, err := pgptools.VerifyDetached(bytes.NewReader(raw), bytes.NewReader(mut), openpgp.EntityList{ent}); err == nil {
+			t = "accepted"
+		}
+	}
+	return fmt.Sprintf("ok type=%d verify=%s tampered=%s", sp.SigType, v, t)
+}
+
 // Handle runs one op on the real code
 func Handle(f []string) string {
 	if len(f) < 1 {
@@ -438,6 +519,19 @@ func Handle(f []string) string {
 			return "bad-op"
 		}
 		return doReclear(arg(1), h, n)
+	case f[0] == "canon" && len(f) >= 2:
+		rec := &recHash{}
+		h := openpgp.NewCanonicalTextHash(rec)
+		for i := 1; i < len(f); i++ {
+			_, _ = h.Write(arg(i))
+		}
+		return "ok " + show(rec.buf)
+	case f[0] == "detached" && len(f) == 6:
+		h, ok := hashes[f[3]]
+		if !ok {
+			return "bad-op"
+		}
+		return doDetached(f[1], arg(2), h, f[4] == "1", int(hx.Atoi(f[5])))
 	case f[0] == "scan" && len(f) == 3:
 		return doScan(f[1], arg(2))
 	case f[0] == "parse" && len(f) == 2:
@@ -449,7 +543,7 @@ func Handle(f []string) string {
 // ---------------------------------------------------------------- generator
 
 var kindsFor = map[string][]string{
-	"C01": {"hdr", "lit", "inline", "clearsign", "merge"},
+	"C01": {"hdr", "lit", "inline", "clearsign", "merge", "canon", "detached"},
 	"C03": {"lit", "inline", "clearsign", "merge"},
 	"C05": {"hdr", "lit", "inline", "parse"},
 	"C08": {"reclear", "merge"},
@@ -532,6 +626,37 @@ func Gen(w *bufio.Writer, seed uint64, tier string, prop string) {
 	e.op("PGP merge 610a sha1")
 	e.op("PGP inline bin 610a 66 sha1 0")
 	e.op("PGP reclear 610a sha1 2")
+	e.op("PGP detached text 610a sha1 0 0")
+
+	// ---- detached signatures: the canonical-text writer (state carried across writes) and sign -> VerifyDetached
+	for _, t := range fixedTexts {
+		e.op("PGP canon %s", hexOrDash([]byte(t)))
+		for _, cut := range []int{1, len(t) / 2} {
+			if cut > 0 && cut < len(t) {
+				e.op("PGP canon %s %s", hexOrDash([]byte(t[:cut])), hexOrDash([]byte(t[cut:])))
+			}
+		}
+	}
+	for i := 0; i < 40*mul; i++ {
+		t := randText(r)
+		var parts []string
+		for len(t) > 0 {
+			k := 1 + r.Intn(len(t))
+			parts = append(parts, hexOrDash(t[:k]))
+			t = t[k:]
+		}
+		if len(parts) == 0 {
+			parts = []string{"-"}
+		}
+		e.op("PGP canon %s", strings.Join(parts, " "))
+	}
+	for i, t := range fixedTexts {
+		e.op("PGP detached %s %s %s %d %d", []string{"text", "bin"}[i%2], hexOrDash([]byte(t)), hashNames[i%len(hashNames)], i%3%2, i%6)
+		e.op("PGP detached text %s sha256 0 %d", hexOrDash([]byte(t)), (i+3)%6)
+	}
+	for i := 0; i < 12*mul; i++ {
+		e.op("PGP detached %s %s %s %d %d", []string{"text", "text", "bin"}[r.Intn(3)], hexOrDash(randText(r)), hashNames[r.Intn(len(hashNames))], r.Intn(2), r.Intn(6))
+	}
 
 	// ---- packet headers: every boundary of RFC 4880 4.2.2, both sides
 	for _, n := range []int{0, 1, 12, 13, 190, 191, 192, 193, 255, 256, 447, 448, 8382, 8383, 8384, 8385, 16383, 16384, 65535, 65536, 65537,
